@@ -697,10 +697,10 @@ def run(rep, tier, seed):
     rng = common.rng_for(seed, 'C19')
     drv = common.Driver()
     quick = tier == 'quick'
-    n_hist = 6000 if quick else 180000
+    n_hist = 6000 if quick else 90000
     max_len = 15 if quick else 50
-    n_wild = 1500 if quick else 45000
-    n_readers = 1500 if quick else 45000
+    n_wild = 1500 if quick else 22000
+    n_readers = 1500 if quick else 22000
     rep.rule = ('operation histories (length <= %d) over SEQUENCE OF/SET OF with and without componentType, SEQUENCE/SET '
                 'with required/OPTIONAL/DEFAULT fields and without componentType (dynamic names), CHOICE with 2-3 '
                 'alternatives; arguments drawn around the current length (inside, N, negative, out of range), names '
